@@ -42,6 +42,15 @@ RECURSIVE CountHits(_, _)
 CountHits(s, n) ==
   LET p == Find(s, n) IN IF p = 0 THEN 0 ELSE 1 + CountHits(Tail0(s, p + Len(n)), n)
 
+(* pieces of s between the left-to-right non-overlapping occurrences of the non-empty pattern n *)
+RECURSIVE SplitOn(_, _)
+SplitOn(s, n) ==
+  LET p == Find(s, n)
+  IN IF p = 0 THEN <<s>> ELSE <<SubSeq(s, 1, p - 1)>> \o SplitOn(Tail0(s, p + Len(n)), n)
+
+(* number of indices at which byte c occurs *)
+CountByte(s, c) == Cardinality({ i \in 1..Len(s) : s[i] = c })
+
 IsDigit(c) == c >= 48 /\ c <= 57
 AllDigits(s) == s # <<>> /\ \A i \in 1..Len(s) : IsDigit(s[i])
 RECURSIVE DecAcc(_, _)
